@@ -126,6 +126,7 @@ func (r *ReplicateMeteImpl) UpdateTaskDropCollectionMsg(ctx context.Context, msg
 	if err != nil {
 		return false, err
 	}
+	taskMsgs[msg.Base.MsgID] = taskMsg
 	return taskMsg.Base.IsReady(), nil
 }
 
@@ -196,6 +197,7 @@ func (r *ReplicateMeteImpl) UpdateTaskDropPartitionMsg(ctx context.Context, msg 
 	if err != nil {
 		return false, err
 	}
+	taskMsgs[msg.Base.MsgID] = taskMsg
 	return taskMsg.Base.IsReady(), nil
 }
 
@@ -233,6 +235,9 @@ func (r *ReplicateMeteImpl) RemoveTaskMsg(ctx context.Context, taskID string, ms
 	r.metaLock.Lock()
 	defer r.metaLock.Unlock()
 	if taskMsgs, ok := r.dropCollectionMsgs[taskID]; ok {
+		delete(taskMsgs, msgID)
+	}
+	if taskMsgs, ok := r.dropPartitionMsgs[taskID]; ok {
 		delete(taskMsgs, msgID)
 	}
 	return nil
